@@ -352,3 +352,43 @@ pub fn twin_num_add() {
     assert!(!r.is_nan());
     assert!(false);
 }
+
+// ===========================================================================
+// bridge between the abstract values of the step specification (crate::vspec::V) and Num, and
+// the value-level models of Num::add / Num::mul used by the interpreter-level harnesses
+// (C01/C02/C10/C12/C14): exact on canonical one-limb rationals, NaN absorbing.
+// ===========================================================================
+use crate::vspec::{self, V};
+
+pub(crate) fn num_of_v(v: V) -> Num {
+    if v.d == 0 {
+        return Num::nan();
+    }
+    Num { up: bn_i(v.n as i64), down: bn1(true, v.d as u32) }
+}
+pub(crate) fn v_of_num(x: &Num) -> V {
+    let (u, d) = (bn_v(&x.up), bn_v(&x.down));
+    assert!(u > -(1i64 << 31) && u < (1i64 << 31) && d >= 0 && d < (1i64 << 31), "model: value leaves the abstract domain");
+    if d == 0 {
+        return vspec::NAN;
+    }
+    V { n: u as i32, d: d as i32 }
+}
+/// structural agreement of a Num with an abstract value (both canonical)
+pub(crate) fn num_is(x: &Num, v: V) -> bool {
+    if v.d == 0 {
+        return x.is_nan();
+    }
+    x.up.verif_limbs().len() == 1
+        && x.down.verif_limbs().len() == 1
+        && x.down.verif_pos()
+        && x.down.verif_limbs()[0] == v.d as u32
+        && x.up.verif_limbs()[0] == v.n.unsigned_abs()
+        && x.up.verif_pos() == (v.n >= 0)
+}
+pub(crate) fn m_num_add(l: &Num, r: &Num) -> Num {
+    num_of_v(vspec::v_add(v_of_num(l), v_of_num(r)))
+}
+pub(crate) fn m_num_mul(l: &Num, r: &Num) -> Num {
+    num_of_v(vspec::v_mul(v_of_num(l), v_of_num(r)))
+}
